@@ -101,6 +101,9 @@ pub enum M {
     TailGarbage(usize),
     /// footer (file index) of the uncompressed stream spliced in place of the compression sizes table and vice versa
     FooterSplice,
+    /// raw random bytes (supplementary, seeded): kind 0 = pure random, 1 = magic+version then random,
+    /// 2 = the base's valid header then random body
+    Random(u64, u8),
 }
 
 /// integer fields (pos, width) of the block stream + file footer, block boundaries
@@ -229,7 +232,28 @@ fn put(s: &mut [u8], pos: usize, width: u8, val: u64) {
 }
 
 /// Apply a list of mutations (k <= 3) to a base; None if not applicable.
+fn random_bytes(seed: u64, n: usize) -> Vec<u8> {
+    let mut x = seed.wrapping_mul(0x9E37_79B9_7F4A_7C15).wrapping_add(0x1234_5678_9ABC_DEF1);
+    (0..n)
+        .map(|_| {
+            x = x.wrapping_mul(6364136223846793005).wrapping_add(1442695040888963407);
+            (x >> 33) as u8
+        })
+        .collect()
+}
+
 pub fn apply(b: &Base, ms: &[M]) -> Option<Vec<u8>> {
+    if let [M::Random(seed, kind)] = ms {
+        let n = (seed % 400) as usize;
+        let body = random_bytes(*seed, n);
+        let mut a = match kind {
+            0 => Vec::new(),
+            1 => b"MLA\x01\x00\x00\x00".to_vec(),
+            _ => b.archive[..b.hl].to_vec(),
+        };
+        a.extend_from_slice(&body);
+        return Some(a);
+    }
     // split by level; level-2 first, then level-1, then level-0
     let mut l2 = b.l2.clone();
     let mut touched2 = false;
@@ -452,6 +476,11 @@ pub fn mutation_sets(b: &Base, bi: usize, thorough: bool) -> Vec<Vec<M>> {
     }
     for o in &ops {
         out.push(vec![o.clone()]);
+    }
+    // raw random byte strings (supplementary; VERIF_SEED)
+    let base_seed = infra::ctx().seed.wrapping_mul(1_000_003).wrapping_add(bi as u64 * 7919);
+    for k in 0..(if thorough { 3000u64 } else { 300 }) {
+        out.push(vec![M::Random(base_seed.wrapping_add(k * 31), (k % 3) as u8)]);
     }
     // k = 2: all pairs over the boundary operators (field ops with the 4 most hostile values) on
     // two bases (quick) / all bases (thorough)
@@ -713,7 +742,7 @@ fn all_cases(bases: &[Base], thorough: bool) -> Vec<(usize, Vec<M>)> {
 }
 
 fn follow_depth_for(ms: &[M], idx: usize, thorough: bool) -> usize {
-    let structured = ms.iter().any(|m| !matches!(m, M::Trunc(_) | M::Bit(..) | M::Set(..) | M::Add(..)));
+    let structured = ms.iter().any(|m| !matches!(m, M::Trunc(_) | M::Bit(..) | M::Set(..) | M::Add(..) | M::Random(..)));
     if ms.iter().any(|m| matches!(m, M::OffsetsRepeat(n) if *n > 1000)) {
         // megabyte-sized input, every call walks 300000 offsets: one follow-up call is enough
         1
@@ -885,7 +914,7 @@ pub fn run(started: Instant) -> i32 {
         rep,
         Meta {
             level: "fault_enumeration",
-            rule: "20 base archives (5 programs x 4 layer combos, real writer); mutation sets: k=1 exhaustive on archive bytes (every truncation; every byte x {8 bit flips, 00, FF, +1, -1}); k=1 structured on the decoded streams, re-encoded with valid compression and valid tags (every integer field of block headers, file index, sizes table and both length words set to 9 boundary values and to len-1/len/len+1; every block delete/duplicate-at/swap; offsets list = N copies of a foreign offset, N in {10,1000,300000}; trailing garbage; footer splice between layers); k=2 all pairs over the hostile structured operators (3 bases quick / all thorough); k=3 triples (thorough). On each input: open, list, read every file with 7-byte reads, get_hash, linear_extract, repair in both modes, and - when a call returned an error - every sequence of up to 2 (thorough 3) further calls on the same reader, then drop. Each input runs in a worker process (crash attribution), under catch_unwind, a 60 s watchdog and a counting allocator (ceiling 256 MiB + 64 x input). non-trivial = distinct mutated inputs".to_string(),
+            rule: "20 base archives (5 programs x 4 layer combos, real writer); mutation sets: k=1 exhaustive on archive bytes (every truncation; every byte x {8 bit flips, 00, FF, +1, -1}); k=1 structured on the decoded streams, re-encoded with valid compression and valid tags (every integer field of block headers, file index, sizes table and both length words set to 9 boundary values and to len-1/len/len+1; every block delete/duplicate-at/swap; offsets list = N copies of a foreign offset, N in {10,1000,300000}; trailing garbage; footer splice between layers); 300 (thorough 3000) seeded random byte strings per base (pure, after a valid magic, after a valid header - supplementary); k=2 all pairs over the hostile structured operators (3 bases quick / all thorough); k=3 triples (thorough). On each input: open, list, read every file with 7-byte reads, get_hash, linear_extract, repair in both modes, and - when a call returned an error - every sequence of up to 2 (thorough 3) further calls on the same reader, then drop. Each input runs in a worker process (crash attribution), under catch_unwind, a 60 s watchdog and a counting allocator (ceiling 256 MiB + 64 x input). non-trivial = distinct mutated inputs".to_string(),
             exhaustive: true,
             bounds: json!({"bases": bases.len(), "cases": total}),
             assumptions: vec!["scaled constants; overflow checks on (profile of the suite)".to_string(), "inner streams are re-encrypted with the archive's own key by an independent AES-GCM implementation (equivalent to an attacker producing an archive for the victim's public key)".to_string()],
